@@ -1749,10 +1749,30 @@ impl Server {
             None // Unsubscribe from all
         };
         
+        let requested = channels.clone();
         let results = self.pubsub.unsubscribe(conn_id, channels)?;
         
         // Send each unsubscription confirmation atomically
         self.connections.with_connection(conn_id, |conn| -> Result<()> {
+            if results.is_empty() {
+                // Nothing was subscribed: the client is still owed its acknowledgements, one per
+                // named channel, or a single one with a nil channel
+                let remaining = self.pubsub.get_subscription_info(conn_id).map(|info| info.channels.len() + info.patterns.len()).unwrap_or(0);
+                match &requested {
+                    Some(chans) => {
+                        for ch in chans {
+                            conn.send_frame(&format_unsubscribe_response(ch, remaining))?;
+                        }
+                    }
+                    None => {
+                        conn.send_frame(&RespFrame::Array(Some(vec![
+                            RespFrame::from_string("unsubscribe"),
+                            RespFrame::null_bulk(),
+                            RespFrame::Integer(remaining as i64),
+                        ])))?;
+                    }
+                }
+            }
             for result in results {
                 match result.subscription {
                     crate::pubsub::Subscription::Channel(ch) => {
@@ -1819,10 +1839,29 @@ impl Server {
             None // Unsubscribe from all patterns
         };
         
+        let requested = patterns.clone();
         let results = self.pubsub.punsubscribe(conn_id, patterns)?;
         
         // Send each unsubscription confirmation atomically
         self.connections.with_connection(conn_id, |conn| -> Result<()> {
+            if results.is_empty() {
+                // Nothing was subscribed: the client is still owed its acknowledgements
+                let remaining = self.pubsub.get_subscription_info(conn_id).map(|info| info.channels.len() + info.patterns.len()).unwrap_or(0);
+                match &requested {
+                    Some(pats) => {
+                        for pat in pats {
+                            conn.send_frame(&format_punsubscribe_response(pat, remaining))?;
+                        }
+                    }
+                    None => {
+                        conn.send_frame(&RespFrame::Array(Some(vec![
+                            RespFrame::from_string("punsubscribe"),
+                            RespFrame::null_bulk(),
+                            RespFrame::Integer(remaining as i64),
+                        ])))?;
+                    }
+                }
+            }
             for result in results {
                 match result.subscription {
                     crate::pubsub::Subscription::Pattern(pat) => {
